@@ -8,3 +8,9 @@ package cache
 func (c *syncMap) deleteEntry(key, entry interface{}) {
 	c.data.CompareAndDelete(key, entry)
 }
+
+// replaceEntry stores updated entry only if the key still holds the given entry,
+// an entry written concurrently under the same key is kept.
+func (c *syncMap) replaceEntry(key interface{}, entry, updated *TraitEntry) bool {
+	return c.data.CompareAndSwap(key, entry, updated)
+}
